@@ -100,8 +100,9 @@ func (c *Ctx) inmemClassEdges(r *inmemRoles, r1, r2 string) {
 		}
 		return false
 	}
+	witness := func(f ir.Fact, want bool, depth int) bool { return r.presenceWitness(f, want, depth, presenceFact) }
 	presence := func(e ir.ExitPoint, want bool) bool {
-		return e.HasFact(func(f ir.Fact) bool { return presenceFact(f, want) })
+		return e.HasFact(func(f ir.Fact) bool { return witness(f, want, 0) })
 	}
 	expired := func(e ir.ExitPoint) bool {
 		if e.Edge != nil && r.expiryEdge(e.Block, e.Edge) == expiredEdge {
@@ -175,7 +176,22 @@ func (c *Ctx) inmemClassEdges(r *inmemRoles, r1, r2 string) {
 			v := ir.Resolve(e.Result(0))
 			okV := false
 			if ir.LoadedField(v) == r.recVersion {
-				for _, o := range pairFieldOrigins(v) {
+				origins := pairFieldOrigins(v)
+				// the record reached through a pointer that is nil or the address of a local copy of the looked-up record
+				if u, isU := v.(*ssa.UnOp); isU {
+					if fa, isFA := u.X.(*ssa.FieldAddr); isFA {
+						if phi, isPhi := fa.X.(*ssa.Phi); isPhi {
+							for _, pe := range phi.Edges {
+								if al, isAl := pe.(*ssa.Alloc); isAl {
+									for _, st := range ir.StoresTo(al) {
+										origins = append(origins, ir.Origins(st.Val)...)
+									}
+								}
+							}
+						}
+					}
+				}
+				for _, o := range origins {
 					if ex, isEx := o.(*ssa.Extract); isEx && ex.Index == 0 {
 						switch t := ex.Tuple.(type) {
 						case *ssa.Lookup:
